@@ -27,8 +27,23 @@ class C04(PropBase):
         return 1500 if tier == 'quick' else 150000
 
     def random_cases(self, rnd, n):
-        for _ in range(n):
-            yield state_case(rnd, removal=True, max_calls=12)
+        for i in range(n):
+            c = state_case(rnd, removal=True, max_calls=12)
+            if i % 12 == 5:
+                # add_interactions_from fed with 3-tuples (u, v, {'t': ...}), as when the interactions() of another graph
+                # are added at time t: whatever that means for presence, ids and counts must still describe presence.
+                # No property fixes the meaning, so the model is not consulted (oracle only).
+                ns = gen.history_nodes(c['hist']) or [1, 2]
+                ts = gen.history_times(c['hist']) or [0]
+                lo, hi = min(ts), max(ts)
+                rows = []
+                for _k in range(rnd.randint(1, 3)):
+                    a = rnd.randint(lo, hi + 2)
+                    rows.append((rnd.choice(ns), rnd.choice(ns), a, a + rnd.randint(0, 3)))
+                t = rnd.randint(lo, hi + 2)
+                c['hist'].insert(rnd.randint(0, len(c['hist'])), ('bulk3', 0, t, rnd.choice([None, t + 2]), rows))
+                c['nomodel'] = True
+            yield c
 
     def program(self, case):
         hist = tup(case['hist'])
